@@ -42,15 +42,16 @@ import (
 )
 
 const (
-	invNS        = "inv-ns"
-	otherNS      = "ns2"
-	invName      = "inv-obj"
-	invID        = "our-inv"
-	otherInvID   = "other-inv"
-	verLabel     = "ver"
-	lastApplied  = "kubectl.kubernetes.io/last-applied-configuration"
-	malformedDep = "bad/annotation/format/x/y/z/extra"
-	objGen       = int64(2)
+	invNS         = "inv-ns"
+	otherNS       = "ns2"
+	invName       = "inv-obj"
+	invID         = "our-inv"
+	otherInvID    = "other-inv"
+	verLabel      = "ver"
+	lastApplied   = "kubectl.kubernetes.io/last-applied-configuration"
+	malformedDep  = "bad/annotation/format/x/y/z/extra"
+	finalizerName = "verif.example/hold"
+	objGen        = int64(2)
 )
 
 var (
@@ -270,10 +271,12 @@ func InventoryObject(univ Universe, keys []int, withData bool) *unstructured.Uns
 // keepVariant is one spelling of the abstract attribute "keep": the lifecycle
 // annotations an object carries when keep = true and when keep = false. A
 // variant is fixed per (history, identifier) for live objects, last-applied
-// contents and manifests alike, and the keys of `off` never carry a preventing
-// value in `on`: kubectl's three-way merge works per annotation key, and only
-// under these two conditions does it act on the pair of annotations as it
-// would on one boolean (Pipeline.v `merged`: keep' = l_keep || (c_keep && not last_keep)).
+// contents and manifests alike, `off` is a subset of `on`, and the keys of
+// `off` never carry a preventing value in `on`: kubectl's three-way merge works
+// per annotation key, and only under these conditions does it act on the pair
+// of annotations as it would on one boolean (without off ⊆ on a live object
+// that drifted to keep = true lacks the keys of the keep = false manifest, and
+// an apply the model calls unchanged sends a patch) (Pipeline.v `merged`: keep' = l_keep || (c_keep && not last_keep)).
 type keepVariant struct{ on, off map[string]string }
 
 var keepVariants = []keepVariant{
@@ -290,9 +293,6 @@ var keepVariants = []keepVariant{
 	{on: map[string]string{common.OnRemoveAnnotation: common.OnRemoveKeep, common.LifecycleDeleteAnnotation: common.PreventDeletion}},
 	{on: map[string]string{common.OnRemoveAnnotation: common.OnRemoveKeep, common.LifecycleDeleteAnnotation: "x"},
 		off: map[string]string{common.LifecycleDeleteAnnotation: "x"}},
-	// one annotation prevents; without keep the other one is present with a value that does not
-	{on: map[string]string{common.OnRemoveAnnotation: common.OnRemoveKeep}, off: map[string]string{common.LifecycleDeleteAnnotation: "x"}},
-	{on: map[string]string{common.LifecycleDeleteAnnotation: common.PreventDeletion}, off: map[string]string{common.OnRemoveAnnotation: "delete"}},
 }
 
 func keepAnnotations(e UEntry, id int, keep bool) map[string]string {
@@ -346,6 +346,10 @@ func content(univ Universe, id int, deps []int, bad, keep bool, ver int, owner O
 	}
 	if len(ann) > 0 {
 		md["annotations"] = ann
+	}
+	if e.Fin {
+		// manifests and live objects alike: the three-way merge then never touches the list
+		md["finalizers"] = []interface{}{finalizerName}
 	}
 	o := &unstructured.Unstructured{Object: map[string]interface{}{
 		"apiVersion": e.APIVersion, "kind": e.Meta.GroupKind.Kind, "metadata": md}}
@@ -846,6 +850,7 @@ func (s *Server) opUpdate(gvr schema.GroupVersionResource, ns string, obj *unstr
 	obj.SetUID(live.GetUID())
 	if !isInventoryObj(obj) {
 		obj.SetGeneration(live.GetGeneration())
+		obj.SetDeletionTimestamp(live.GetDeletionTimestamp())
 	}
 	if !dry {
 		if err := s.st.put(gvr, ns, obj); err != nil {
@@ -897,6 +902,7 @@ func (s *Server) opPatch(gvr schema.GroupVersionResource, ns, name string, pt ty
 		if live != nil {
 			res.SetUID(live.GetUID())
 			res.SetGeneration(live.GetGeneration())
+			res.SetDeletionTimestamp(live.GetDeletionTimestamp())
 		} else {
 			if !dry {
 				res.SetUID(types.UID(s.st.allocUID()))
@@ -935,6 +941,7 @@ func (s *Server) opPatch(gvr schema.GroupVersionResource, ns, name string, pt ty
 		res = &unstructured.Unstructured{Object: m}
 		res.SetUID(live.GetUID())
 		res.SetGeneration(live.GetGeneration())
+		res.SetDeletionTimestamp(live.GetDeletionTimestamp())
 	default:
 		s.noteUnexpected("PATCH of %d with patch type %s", id, pt)
 		return fail(apierrors.NewBadRequest("unsupported patch type " + string(pt)))
@@ -1004,7 +1011,19 @@ func (s *Server) opDelete(gvr schema.GroupVersionResource, ns, name string, opts
 			fmt.Errorf("Precondition failed: UID in precondition: %v, UID in object meta: %v", *opts.Preconditions.UID, live.GetUID()))
 	}
 	if !dry {
-		s.st.del(gvr, ns, name)
+		if len(live.GetFinalizers()) > 0 {
+			// held by a finalizer: the server accepts the delete, marks the object
+			// as terminating and keeps it (a repeated delete changes nothing)
+			if live.GetDeletionTimestamp() == nil {
+				ts := metav1.NewTime(time.Unix(1700000000, 0).UTC())
+				live.SetDeletionTimestamp(&ts)
+				if err := s.st.put(gvr, ns, live); err != nil {
+					s.noteUnexpected("store delete (terminating): %v", err)
+				}
+			}
+		} else {
+			s.st.del(gvr, ns, name)
+		}
 	}
 	s.logReq(coq, text, true)
 	return nil
